@@ -100,18 +100,30 @@ class StateGraph(Observer):
             self.violate('edge', {'inst': inst.nick, 'from': old, 'to': new}, 'edge:%s->%s' % (old, new))
         if new in MASTER_DRIVEN:
             master = body['master_identifier']
+            # specific history behind the recorded finding: supvisors_failure_strategy=SHUTDOWN makes any instance
+            # enter SHUTTING_DOWN by itself when a required instance is missing (no shutdown was requested)
+            suffix = ''
+            if new == 'SHUTTING_DOWN' and self._auto_shutdown(inst):
+                suffix = ':failure-strategy-SHUTDOWN'
             if not master:
-                self.violate('no-master', {'inst': inst.nick, 'state': new}, 'no-master:%s' % new)
+                self.violate('no-master', {'inst': inst.nick, 'state': new}, 'no-master:%s%s' % (new, suffix))
             elif body['instance_states'].get(master) != 'RUNNING':
                 self.violate('master-not-running', {'inst': inst.nick, 'state': new, 'master': master,
                                                     'seen': body['instance_states'].get(master)},
-                             'master-not-running:%s' % new)
+                             'master-not-running:%s%s' % (new, suffix))
             elif master != inst.identifier:
                 m_nick = sim.by_identifier.get(master)
                 if new not in self.entered.get(m_nick, ()):
                     self.violate('slave-before-master', {'inst': inst.nick, 'state': new, 'master': m_nick},
-                                 'slave-before-master:%s' % new)
+                                 'slave-before-master:%s%s' % (new, suffix))
         self.entered.setdefault(inst.nick, set()).add(new)
+
+    def _auto_shutdown(self, inst):
+        from oracles.cluster import effective_options
+        _, _, strategy = effective_options(self.run.config)
+        if strategy != 'SHUTDOWN':
+            return False
+        return True
 
     def after_event(self, sim, inst, kind):
         # what get_supvisors_state reports is what was last published
